@@ -24,7 +24,7 @@ place_demo() {
 run_demo() {
   rc=0
   names=$(cat "$W"/zz_seed_*_test.go "$W"/testdirectory/zz_seed_*_test.go 2>/dev/null | grep -o '^func Test[A-Za-z0-9_]*' | awk '{print $2}' | sort -u | paste -sd'|')
-  if [ -n "$names" ]; then (cd "$W" && go test -vet=off -count=1 -run "^($names)\$" ./... >"$W/.demo.log" 2>&1) || rc=1; fi
+  if [ -n "$names" ]; then (cd "$W" && go test $SEED_RACE -vet=off -count=1 -run "^($names)\$" ./... >"$W/.demo.log" 2>&1) || rc=1; fi
   if [ -d "$W/zz_seed_demo" ]; then (cd "$W" && go run ./zz_seed_demo >>"$W/.demo.log" 2>&1) || rc=1; fi
   return $rc
 }
